@@ -122,19 +122,23 @@ WriteLoop(w, d, k, pos, out, n, hdrfits, shrink) ==
 
 \* ReadFrom(src): the source yields `total` bytes in reads that fill the free
 \* space (the strongest adversary for fragmentation), then EOF or an error.
+\* what ReadFrom does after its loop: mark the writer dirty when bytes were taken (or at EOF)
+RFDone(w, n, eof) ==
+    IF eof \/ (~BugReadFromNotDirty /\ n > 0) THEN [w EXCEPT !.dirty = TRUE] ELSE w
+
 RECURSIVE ReadLoop(_, _, _, _, _, _, _, _)
 ReadLoop(w, d, left, srcErr, pos, out, n, hdrfits) ==
     IF Avail(w) = 0 THEN
        IF w.noflush THEN ReadLoop(DoGrow(w, w.n), d, left, srcErr, pos, out, n, hdrfits)
        ELSE IF w.err THEN  \* FlushFragment() returns the sticky error: the loop ends
-            [w |-> w, d |-> d, out |-> out, n |-> n, err |-> "transport", hdrfits |-> hdrfits]
+            [w |-> RFDone(w, n, FALSE), d |-> d, out |-> out, n |-> n, err |-> "transport", hdrfits |-> hdrfits]
        ELSE LET r == DoFlushFragment(w, d, pos) IN
             IF r.w.err
-            THEN [w |-> r.w, d |-> r.d, out |-> out \o r.out, n |-> n, err |-> "transport", hdrfits |-> hdrfits /\ r.hdrfits]
+            THEN [w |-> RFDone(r.w, n, FALSE), d |-> r.d, out |-> out \o r.out, n |-> n, err |-> "transport", hdrfits |-> hdrfits /\ r.hdrfits]
             ELSE ReadLoop(r.w, r.d, left, srcErr, pos, out \o r.out, n, hdrfits /\ r.hdrfits)
     ELSE IF left = 0 THEN
        \* src.Read returns (0, srcErr)
-       [w |-> IF srcErr = "eof" \/ (~BugReadFromNotDirty /\ n > 0) THEN [w EXCEPT !.dirty = TRUE] ELSE w,
+       [w |-> RFDone(w, n, srcErr = "eof"),
         d |-> d, out |-> out, n |-> n, err |-> IF srcErr = "eof" THEN "nil" ELSE srcErr, hdrfits |-> hdrfits]
     ELSE LET nn == IF left < Avail(w) THEN left ELSE Avail(w) IN
          ReadLoop([w EXCEPT !.n = w.n + nn], d, left - nn, srcErr, pos + nn, out, n + nn, hdrfits)
